@@ -243,6 +243,8 @@ impl Prop for C11 {
             GenSpec::enumerated("repo-files", 1),
             GenSpec::random("noise", tier.pick(100, 10_000)),
             GenSpec::enumerated("scaling", tier.pick(6, 9)),
+            // interpreter-sized cases for the Miri leg (tools/legs.sh); not part of the native plan
+            GenSpec::random("miri-sample", 0),
         ]
     }
     fn run_case(&self, cx: &mut Cx) {
@@ -333,6 +335,29 @@ impl Prop for C11 {
                     self.probe(cx, s.as_bytes(), "noise");
                 }
                 cx.sample(|| json!({"noise_inputs": 50}));
+            }
+            "miri-sample" => {
+                let cfg = LefCfg { max_macros: 1, max_pins: 1, ..Default::default() };
+                let g = rand_lef(&mut cx.rng, &cfg);
+                let mut style = Style::random(&mut cx.rng);
+                style.comments = true;
+                style.nonascii_comments = true;
+                let text = render(&g, &cfg, &mut cx.rng, style).0;
+                self.probe(cx, text.as_bytes(), "miri");
+                let mut cut = cx.rng.usize(text.len());
+                while !text.is_char_boundary(cut) {
+                    cut -= 1;
+                }
+                self.probe(cx, &text.as_bytes()[..cut], "miri");
+                let (toks, _) = token_spans(&text);
+                if !toks.is_empty() {
+                    let (a, b) = *cx.rng.pick(&toks);
+                    let mut v = text.as_bytes()[..a].to_vec();
+                    v.extend_from_slice("é\"".as_bytes());
+                    v.extend_from_slice(&text.as_bytes()[b..]);
+                    self.probe(cx, &v, "miri");
+                }
+                cx.nontrivial(crate::rt::prng::strhash(&text));
             }
             "scaling" => {
                 // 2^k macros: the step counts per byte must stay within the same budget
